@@ -388,7 +388,21 @@ func c30markBody(mark func(...int), m c30msg) {
 // readSeq reads one direction back with the peer's broker and compares.
 // It returns "" or a description of the first difference.
 func (c *c30) readSeq(dir string, seq []c30msg, b []byte, cuts []int, ewd bool) (diff string, kind string) {
+	return c.readSeqFailed(dir, seq, nil, b, cuts, ewd)
+}
+
+// readSeqFailed: like readSeq; when failed != nil the stream ends in a frame whose
+// write FAILED with a broken writer (nothing is written after it): after seq was
+// read back as written, the reader must get an error at that frame (see c30_fault_test.go).
+func (c *c30) readSeqFailed(dir string, okseq []c30msg, failed *c30msg, b []byte, cuts []int, ewd bool) (diff string, kind string) {
 	cr := &c30chunks{b: b, cuts: cuts, eofWithData: ewd}
+
+	seq := okseq
+	if failed != nil {
+		seq = append(append([]c30msg(nil), okseq...), *failed)
+	}
+
+	nok := len(okseq)
 
 	var rb *baseBroker
 	var readFirstHead func() error
@@ -424,7 +438,7 @@ func (c *c30) readSeq(dir string, seq []c30msg, b []byte, cuts []int, ewd bool) 
 		cb := NewClientBroker(c.env.encs, c.env.enc, cr, &c30sink{})
 		rb = cb.baseBroker
 
-		if seq[0].kind == "res" {
+		if len(seq) > 0 && seq[0].kind == "res" {
 			readFirstHead = func() error {
 				enc, got, err := cb.ReadResponseHead(c.ctx)
 				if err != nil {
@@ -439,14 +453,21 @@ func (c *c30) readSeq(dir string, seq []c30msg, b []byte, cuts []int, ewd bool) 
 	start := 0
 
 	if readFirstHead != nil {
-		if err := readFirstHead(); err != nil {
+		switch err := readFirstHead(); {
+		case nok == 0 && failed != nil:
+			if err == nil {
+				return fmt.Sprintf("message 0 (%s): its write failed, but the peer read a head without error", seq[0].id()), "ghost-head"
+			}
+
+			return "", ""
+		case err != nil:
 			return fmt.Sprintf("message 0 (%s): %v", seq[0].id(), err), "head"
 		}
 
 		start = 1
 	}
 
-	for i := start; i < len(seq); i++ {
+	for i := start; i < nok; i++ {
 		m := seq[i]
 
 		bt, bl, body, enc, res, err := rb.ReadBody(c.ctx)
@@ -498,6 +519,10 @@ func (c *c30) readSeq(dir string, seq []c30msg, b []byte, cuts []int, ewd bool) 
 		if m.btype == FixedLengthBodyType && bl != uint64(len(m.body)) {
 			return fmt.Sprintf("message %d (%s): body length %d", i, m.id(), bl), "body"
 		}
+	}
+
+	if failed != nil {
+		return c.readFailedFrame(rb, *failed, nok)
 	}
 
 	// nothing may be left, and a further read must fail
@@ -1222,21 +1247,24 @@ func TestVerifC30(t *testing.T) {
 
 	r.Rule("wf: every legal message sequence of <= maxMsgs messages per direction (client: request head of 3 header types then bodies; handler: response heads {ok, error} and bodies in any order; body kinds empty, fixed 0/1/5, stream 0/5; a stream body ends the direction) written by the real brokers and read by the peer's broker under: whole, every-1-byte, every-7-bytes, every single cut position, every pair of cuts at field boundaries (+-1 in thorough), x both EOF conventions. " +
 		"hostile: DFS over token sequences of <= depth tokens from a 30-token alphabet (type bytes valid x3 / invalid x2, 12 length fields incl. exact/exact+1/64MiB/2^31/2^64-1, encoder hint valid/unknown/garbage, header JSON request/response/null/not-a-header/bad-field/garbage, payload) fed to ReadRequestHead, ReadResponseHead and ReadBody, then ReadBody repeatedly with every body drained; a subtree is not expanded when no run reached the end of the stream (result cannot depend on the continuation) or when an announced length above 1 MiB makes every enumerable continuation fail alike. " +
-		"non-trivial = chunked delivery, or a first message that is not well-formed")
+		"fault: every wf sequence with one writer-side fault: class A (Marshal failure of a request/response head, nil response header, nil body reader, invalid body type) at every frame position with the following frames still written (brokers directly) and, handler side, through NewHandler + default error handler; class B the underlying writer failing for good at the k-th Write call (0 or half of the bytes taken) for every Write call of the last frame; read back by the peer under whole/every-1/every-7 x both EOF conventions: frames whose write returned nil are read as written, a failed frame yields nothing (class A) or an error at that frame (class B). " +
+		"non-trivial = chunked delivery, or a first message that is not well-formed, or any fault case")
 	r.Assume("announced lengths above 64 MiB (1<<26) up to MaxInt32 are excluded: util.ReadLengthed allocates the announced length before reading (an out-of-memory abort is not a panic in the statement's sense); such sequences are counted in hostile_excluded_announced_over_64MiB")
 	r.Assume("QUIC transport, timeouts/cancellation and concurrent use of one broker are out of scope; readers returning (0,nil) are not enumerated")
+	r.Assume("writer faults: a writer that failed keeps failing (no write deadline is set on QUIC streams, a failed Write is permanent); transient writer failures, failing body readers and more than one fault per stream are not enumerated")
 	r.Set("wf_max_messages", maxMsgs)
 	r.Set("hostile_depth", depth)
 	r.Set("hostile_tokens", len(c.tokens()))
 	r.Set("announced_length_cap", c30maxAlloc)
 
-	var work []func()
+	var work, fwork []func()
 
 	// client direction
 	for ri := range c.env.reqs {
 		for _, tail := range c30tails(c30bodies, maxMsgs-1) {
 			seq := append([]c30msg{{kind: "req", req: ri}}, tail...)
 			work = append(work, func() { c.wellFormed("c", seq, wide) })
+			fwork = append(fwork, func() { c.faultWork("c", seq) })
 		}
 	}
 
@@ -1249,9 +1277,11 @@ func TestVerifC30(t *testing.T) {
 
 		seq := seq
 		work = append(work, func() { c.wellFormed("s", seq, wide) })
+		fwork = append(fwork, func() { c.faultWork("s", seq) })
 	}
 
 	r.Set("wf_sequences", len(work))
+	r.Set("fault_base_sequences", len(fwork))
 
 	// hostile: one work item per first two tokens
 	h := &c30hostile{c: c, tokens: c.tokens(), depth: depth, full: r.Thorough()}
@@ -1277,6 +1307,9 @@ func TestVerifC30(t *testing.T) {
 			})
 		}
 	}
+
+	// fault part: appended last so that the partition of the older parts is unchanged in order
+	work = append(work, fwork...)
 
 	r.Set("work_items", len(work))
 
